@@ -187,6 +187,22 @@ Example c16_selfcancel_reuse_fires :
   end = true.
 Proof. vm_compute. reflexivity. Qed.
 
+(* Scale does not matter (the theorems above hold for any number of timers / pending cancellations); a concrete
+   instance: 33 cancelled timers are still queued when a repeating timer cancels itself inside its own callback
+   (the 34th pending cancellation) and returns true: it runs once and never again, none of the 33 ever runs. *)
+Example c16_many_pending_cancellations :
+  let regs := repeat (OReg true 1000 0) 35 in
+  let cancels := map (fun k => OCancel (N.of_nat k)) (seq 0 33) in
+  match run pool_alloc pool_pick init
+          (regs ++ cancels ++ [OReg true 5 0; OAdvance 5; OExec [mkScript [ACancelSelf] true]; OAdvance 5;
+                               OExec [mkScript [] true]; OAdvance 2000; OExec (repeat (mkScript [] false) 6)]) with
+  | Some s => (length (filter (fun x => match x with LFire e _ => eser e =? 35 | _ => false end) (log s)),
+               length (filter (fun x => match x with LFire _ _ => true | _ => false end) (log s)),
+               length (filter (fun x => match x with LDrop _ => true | _ => false end) (log s)))
+  | None => (0, 0, 0)%nat
+  end = (1, 3, 34)%nat.
+Proof. vm_compute. reflexivity. Qed.
+
 (* ====================================================================== part (b): descriptor pollers *)
 Local Close Scope N_scope.
 (* A callback runs only while its descriptor is registered.
@@ -424,6 +440,15 @@ Proof. vm_compute. reflexivity. Qed.
 Example c16_ex_select_sock :
   p_ex_kinds (p_run false (p_ex_cfg PSock) p_ex_ops) = [(PKRead, [1%N; 2%N], true); (PKClose, [], true)].
 Proof. vm_compute. reflexivity. Qed.
+(* a backlog that needs 17 read callbacks after the hang-up: all 17 bytes are delivered, then the close, on both
+   back-ends (instance of c16_close_once_after_data / c16_backends_agree; no bound on the number of reads) *)
+Example c16_ex_backlog :
+  let c := [Build_p_dcfg PSock true false 1 [] [] []] in
+  let ops := [POAddR 0; POWrite 0 (map N.of_nat (seq 1 17)); POClosePeer 0] ++ repeat (POPoll false) 19 in
+  map (fun e => (le_kind e, le_bytes e)) (p_log (p_run true c ops)) =
+    map (fun k => (PKRead, [N.of_nat k])) (seq 1 17) ++ [(PKClose, [])] /\
+  p_log (p_run true c ops) = p_log (p_run false c ops).
+Proof. vm_compute. split; reflexivity. Qed.
 (* removal by an earlier callback of the same iteration: d0's read callback removes d1, both are ready *)
 Example c16_ex_remove_ready :
   let c := [Build_p_dcfg PPipe true false 9 [PARemR 1] [] []; Build_p_dcfg PPipe true false 9 [] [] []] in
